@@ -55,6 +55,10 @@ use RequestType as T;
 // ------------------------------------------------------------------------------------------------
 // case
 
+/// K1 (RemoveListener underflow), K3 (answers lost before HardStop), K6 (lease assertion) and K8 (zero flood knob) are repaired in sozu:
+/// generated sequences no longer steer around them (K2, K4, K5, K7 still are known findings).
+const STEER_REPAIRED: bool = false;
+
 #[derive(Clone, Debug, Serialize, Deserialize)]
 pub struct Case {
     /// the command sequence; addresses are the placeholders of `gens::cmd` (mapped onto real
@@ -816,7 +820,18 @@ impl Models {
                 }
             }
             Some(T::RemoveListener(r)) => {
-                b.removes_seen += 1;
+                // (K1 repaired) only a listener the worker's own state knew of lowers base_sessions_count
+                let a = SocketAddr::from(r.address);
+                let known = match ListenerType::try_from(r.proxy) {
+                    Ok(ListenerType::Http) => before.http_listeners.contains_key(&a),
+                    Ok(ListenerType::Https) => before.https_listeners.contains_key(&a),
+                    Ok(ListenerType::Tcp) => before.tcp_listeners.contains_key(&a),
+                    Ok(ListenerType::Udp) => before.udp_listeners.contains_key(&a),
+                    Err(_) => false,
+                };
+                if known {
+                    b.removes_seen += 1;
+                }
                 if s.ok() {
                     b.in_slab.remove(&(r.proxy, SocketAddr::from(r.address)));
                     b.reactivated.remove(&(r.proxy, SocketAddr::from(r.address)));
@@ -986,7 +1001,7 @@ pub fn scenario(case: &Case) -> CheckResult {
         .reqs
         .iter()
         .map(|r| {
-            let (out, clamped) = env.remap(r, !case.strict);
+            let (out, clamped) = env.remap(r, !case.strict && STEER_REPAIRED);
             k8_clamped += clamped as u64;
             out
         })
@@ -1026,14 +1041,14 @@ pub fn scenario(case: &Case) -> CheckResult {
             if matches!(r.request_type, Some(T::RemoveListener(_))) {
                 // K1: base_sessions_count (3 + listeners added) is decremented by every RemoveListener
                 let base = 3 + models.books.adds_ok - models.books.removes_seen - removes_in_burst;
-                if base <= 0 && !case.strict {
+                if base <= 0 && !case.strict && STEER_REPAIRED {
                     k1_skipped += 1;
                     continue;
                 }
                 removes_in_burst += 1;
             }
             // K6: renewing a metric-detail lease at a lower level trips a debug assertion
-            if !case.strict && leases.lowers(r) {
+            if !case.strict && STEER_REPAIRED && leases.lowers(r) {
                 k6_skipped += 1;
                 continue;
             }
@@ -1348,14 +1363,14 @@ pub fn scenario(case: &Case) -> CheckResult {
     let mut tail_removes = 0i64;
     for r in tail {
         if matches!(r.request_type, Some(T::RemoveListener(_))) {
-            if !case.strict && 3 + models.books.adds_ok - models.books.removes_seen - tail_removes <= 0 {
+            if !case.strict && STEER_REPAIRED && 3 + models.books.adds_ok - models.books.removes_seen - tail_removes <= 0 {
                 excluded += 1;
                 rep.class("k1_remove_listener_dropped");
                 continue;
             }
             tail_removes += 1;
         }
-        if !case.strict && leases.lowers(r) {
+        if !case.strict && STEER_REPAIRED && leases.lowers(r) {
             excluded += 1;
             k6_skipped += 1;
             continue;
@@ -1367,7 +1382,7 @@ pub fn scenario(case: &Case) -> CheckResult {
         excluded += 1;
         rep.class("k2_softstop_replaced");
     }
-    let apart = !tail_reqs.is_empty() && !soft && !case.strict;
+    let apart = !tail_reqs.is_empty() && !soft && !case.strict && STEER_REPAIRED;
     let mut tail_ids = vec![];
     for (k, r) in tail_reqs.iter().enumerate() {
         // written together with the stop verb, unless K3 is being steered around
@@ -1521,9 +1536,9 @@ fn known_cases() -> Vec<(&'static str, &'static str, Case)> {
     let status = || rq(T::Status(Status {}));
     let case = |reqs: Vec<Request>, soft: bool, tail: u8| Case { reqs, bursts: vec![1], blocked: 0, traffic: None, traffic_host: 0, soft, tail, strict: true };
     vec![
-        ("seq-known-K1-remove-listener-underflow", "C08/worker-panicked:lib/src/server.rs:2121", case(vec![remove(), remove(), remove(), remove(), status()], false, 0)),
+        ("seq-fixed-K1-remove-listener-underflow", "C08/worker-panicked:lib/src/server.rs:2121", case(vec![remove(), remove(), remove(), remove(), status()], false, 0)),
         ("seq-known-K2-softstop-after-remove-listener", "C08/softstop-never-finishes:listener-removed", case(vec![http_listener(), remove()], true, 0)),
-        ("seq-known-K3-answer-lost-before-hardstop", "C08/unanswered-before-hardstop:Status", case(vec![cluster(), status()], false, 1)),
+        ("seq-fixed-K3-answer-lost-before-hardstop", "C08/unanswered-before-hardstop:Status", case(vec![cluster(), status()], false, 1)),
         ("seq-known-K4-failed-frontend-stays-in-view", "C08/view-differs-after-failure:AddHttpFrontend", case(vec![front(), cluster()], false, 0)),
         (
             "seq-known-K5-frontends-lost-when-listener-readded",
@@ -1535,7 +1550,7 @@ fn known_cases() -> Vec<(&'static str, &'static str, Case)> {
             "C08/route-differs-from-view:listener-reactivated",
             case(vec![http_listener(), activate(), cluster(), backend(), front(), deactivate(), activate()], false, 0),
         ),
-        ("seq-known-K8-zero-flood-knob-accepted-on-add", "C08/worker-panicked:lib/src/protocol/mux/h2.rs:1026", {
+        ("seq-fixed-K8-zero-flood-knob-accepted-on-add", "C08/worker-panicked:lib/src/protocol/mux/h2.rs:1026", {
             // the assertion sits in the H2 connection constructor: an h2c cluster, reached by the traffic phase
             let h2_cluster = rq(T::AddCluster(Cluster { cluster_id: "c0".into(), http2: Some(true), ..Default::default() }));
             let front_for = |host: &str| rq(T::AddHttpFrontend(RequestHttpFrontend { cluster_id: Some("c0".into()), address: l0, hostname: host.into(), path: PathRule::prefix("/".to_string()), position: 2, ..Default::default() }));
@@ -1545,7 +1560,7 @@ fn known_cases() -> Vec<(&'static str, &'static str, Case)> {
             c.traffic = Some(1);
             c
         }),
-        ("seq-known-K6-lease-renewed-lower-asserts", "C08/worker-panicked:lib/src/metrics/mod.rs:638", case(vec![lease(3), lease(1)], false, 0)),
+        ("seq-fixed-K6-lease-renewed-lower-asserts", "C08/worker-panicked:lib/src/metrics/mod.rs:638", case(vec![lease(3), lease(1)], false, 0)),
     ]
 }
 
@@ -1614,7 +1629,7 @@ pub fn run(args: &Args) -> i32 {
     ev.assume("Add*Listener commands are sent with active=false, as ListenerBuilder and the CLI build them (activation is the separate ActivateListener step); an Add*Listener that claims active=true is not exercised");
     ev.assume("DeactivateListener.to_scm and ActivateListener.from_scm stay false; after ReturnListenSockets the harness takes and closes the sockets like a main process would and stops probing those addresses");
     ev.assume("master-only verbs (SaveState, LoadState, ListWorkers, ListFrontends, ListListeners, UpgradeMain, UpgradeWorker, SubscribeEvents, ReloadConfiguration, CountRequests, QueryCertificatesFromTheState, QueryHealthChecks) and a request without request_type are outside the domain");
-    ev.assume("known deviations K1..K8 (see the module comment) are steered around when `strict` is false and counted in excluded_known; their strict reproducers are the regression files");
+    ev.assume("known deviations K2, K4, K5, K7 (see the module comment) are steered around when `strict` is false and counted in excluded_known, their strict reproducers are the regression files; K1, K3, K6 and K8 are repaired in sozu and are generated freely");
     ev.floor(SUB, "has_failure", 0.6);
     ev.floor(SUB, "kinds>=3", 0.9);
     ev.floor(SUB, "burst>=8", 0.2);
